@@ -68,6 +68,9 @@ func Materialise(root string, t Tree, vars map[string]string) error {
 			if err := os.Symlink(Subst(n.Target, vars), p); err != nil {
 				return err
 			}
+		case "hardlink":
+			// a second name for the file Target (relative to root): made once every file exists
+			continue
 		case "fifo":
 			if err := syscall.Mkfifo(p, 0644); err != nil {
 				return err
@@ -95,6 +98,16 @@ func Materialise(root string, t Tree, vars map[string]string) error {
 			return fmt.Errorf("materialise: unknown kind %q", n.Kind)
 		}
 	}
+	for _, n := range nodes {
+		if n.Kind != "hardlink" {
+			continue
+		}
+		p := filepath.Join(root, filepath.FromSlash(n.Path))
+		os.MkdirAll(filepath.Dir(p), 0755)
+		if err := os.Link(filepath.Join(root, filepath.FromSlash(Subst(n.Target, vars))), p); err != nil {
+			return err
+		}
+	}
 	// metadata bottom-up (reverse lexical order puts children before parents)
 	for i := len(nodes) - 1; i >= 0; i-- {
 		n := nodes[i]
@@ -106,7 +119,7 @@ func Materialise(root string, t Tree, vars map[string]string) error {
 			}
 			continue
 		}
-		if n.Kind == "socket" || n.Kind == "chardev" {
+		if n.Kind == "socket" || n.Kind == "chardev" || n.Kind == "hardlink" {
 			continue
 		}
 		if n.Sec != 0 || n.Nsec != 0 {
@@ -118,7 +131,7 @@ func Materialise(root string, t Tree, vars map[string]string) error {
 	}
 	for i := len(nodes) - 1; i >= 0; i-- {
 		n := nodes[i]
-		if n.Kind == "symlink" || n.Kind == "socket" || n.Kind == "chardev" {
+		if n.Kind == "symlink" || n.Kind == "socket" || n.Kind == "chardev" || n.Kind == "hardlink" {
 			continue
 		}
 		if n.Mode != 0 || n.Kind == "file" || n.Kind == "dir" {
